@@ -108,6 +108,7 @@ inductive Kind
   | compactString         -- `satoshi_string`
   | fixedBytes (n : Nat)  -- `f.read(n)` / `f.write(v[:n])`
   | bool                  -- `struct` `?`
+  | other                 -- an entry the translator could not classify: the model refuses it
   deriving DecidableEq, Repr
 
 /-- the Python values that travel through `parse_struct` / `stream_struct` -/
@@ -152,6 +153,7 @@ def parseLetter : Kind → Parser Val
     match b with
     | [] => .error .structError
     | x :: r => .ok (.bool (x != 0), r)
+  | .other => fun _ => .error .keyError
 
 /-! ## `Streamer.stream_struct` / `parse_struct` -/
 
